@@ -204,6 +204,7 @@ def handleRt (fs : List (String × String)) : String := Id.run do
   let delivered :=
     if path == "pp" then got.startsWith "pp:1:" && ((got.splitOn "R+S").length > 1 || (got.splitOn "S+R").length > 1)
     else if len == 0 && path == "str" then got == "-"    -- an empty reliable message is not delivered by readUserMsg
+    else if len == 0 && path == "pkt" then got == "-" && getD fs "ngot" "1" == "1"   -- delivered once, empty
     else got == payload
   let bad : Option String :=
     if panicked then some "panic"
